@@ -70,12 +70,12 @@ def job_spectrum(res, n, N, spacing, buckets, cutoff_on, wake_first=False):
         witness(res, 'cutoff branch evaluated exp() (%d symbolic calls)' % len(recs), [], z3.BoolVal(len(recs) >= 1))
     witness(res, 'spectrum depends on Re Z_1 (N=%d)' % N, [], z3.BoolVal(occurs(spec[1], Z[1][0]) and not occurs(spec[1], Z[1][1])))
 
-def job_parseval(res, n):
+def job_parseval(res, n, N=4):
     """(ii) N = 4, exact DFT semantics, single bunch in bucket 0 (as main builds the radiation field): sum_{0<k<N/2} spectrum_k/dq^2 == 1/2 sum_x rho_x Wt_x - 1/2 Re Z_0 |F_0|^2, Wt = unscaled c2r output"""
-    N = 4
     bld = field_build(); mod = load_module(bld, FIELD_MODS)
     snap, R, pre, plans, calib = field_world(bld, n, N, 0, (0,))
-    ex = Exec(mod, snap, RealDom(), {'fftwf_execute': dft_exact(plans)}); st = State()
+    ex = Exec(mod, snap, RealDom(), {'fftwf_execute': dft_exact(plans, (4, 8))}); st = State()
+    if N == 8: rt = z3.Real('sqrt_half'); st.pc += [rt * rt == Fraction(1, 2), rt > 0]
     P = sym_profiles(ex, st, R, n, 1); Z = sym_impedance(ex, st, R, N)
     s1 = ex.run1(st.fork(), 'e_csr', [R['field'], Fraction(0)]); spec = get_reals(ex, s1, s1.retval, N)
     s2 = ex.run1(st.fork(), 'e_wake', [R['field']]); wt = get_reals(ex, s2, R['wp_padded'], N); account(res, ex, mod, [s1, s2])
@@ -84,11 +84,11 @@ def job_parseval(res, n):
     F0 = sum(rho[1:], rho[0])
     lhs = sum([spec[k] for k in range(1, N // 2)], z3.RealVal(0)) / renorm0
     rhs = sum([rho[x] * wt[x] for x in range(N)], z3.RealVal(0)) / 2 - Z[0][0] * F0 * F0 / 2
-    prove(res, 'Parseval, n=%d N=4, exact DFT: sum over interior frequencies of spectrum/delta_q^2 == 1/2 * sum_x rho_x * (unscaled wake)_x - DC term, for every profile and complex impedance' % n,
+    prove(res, 'Parseval, n=%d N=%d, exact DFT: sum over interior frequencies of spectrum/delta_q^2 == 1/2 * sum_x rho_x * (unscaled wake)_x - DC term, for every profile and complex impedance' % (n, N),
           st.pc, lhs != rhs, key='parseval', cex_fn=lambda m: {'replay': 'parseval', 'n': n, 'rho': [mval(m, v) for v in P], 'z': [mval(m, c) for zz in Z for c in zz], 'lhs': mval(m, lhs), 'rhs': mval(m, rhs)})
     witness(res, 'Parseval sides depend on Re Z_1', [], z3.BoolVal(occurs(lhs, Z[1][0])))
     # the Nyquist and upper bins: spectrum above N/2 is zero, the Nyquist bin carries Re Z_{N/2} |F_{N/2}|^2 but does not enter the wake
-    prove(res, 'n=%d N=4: unscaled wake does not depend on the Nyquist/upper impedance samples' % n, st.pc, z3.Or(*[z3.substitute(w, *[(c, z3.Real(str(c) + 'a')) for k in range(2, 4) for c in Z[k]]) != w for w in wt]), key='wake-upper-half-unused')
+    prove(res, 'n=%d N=%d: unscaled wake does not depend on the Nyquist/upper impedance samples' % (n, N), st.pc, z3.Or(*[z3.substitute(w, *[(c, z3.Real(str(c) + 'a')) for k in range(N // 2, N) for c in Z[k]]) != w for w in wt]), key='wake-upper-half-unused')
 
 def replayer(bld):
     def rp(path, c):
@@ -125,9 +125,9 @@ def main(tier):
         cfgs = [(4, N, 5, b, c) for N in (8, 9, 10, 11, 12, 16) for b in ((0,), (0, 1), (1, 0)) if max(b) * 5 + 4 <= N for c in (0, 1)] + [(5, 20, 6, (0, 2), 0), (6, 13, 0, (0,), 1)]
     import c18
     jobs = [(c18.job_history, (4, 8, 0, (0,), 2, 0)), (c18.job_history, (3, 12, 4, (0, 2), 1, 1))]      # the spectrum is that of the current profile and the current cutoff, whatever was computed before (other profiles, the other cutoff setting)
-    jobs += [(job_spectrum, c) for c in cfgs] + [(job_spectrum, tuple(c) + (True,)) for c in cfgs if not c[4]] + [(job_parseval, (n,)) for n in ((3, 4) if tier == 'quick' else (2, 3, 4))]
-    chk.bounds = {'configurations (n, N, spacing, buckets, cutoff)': cfgs, 'Parseval': 'N = 4 with FFTW\'s documented r2c/c2r written out exactly (rational twiddles), n = 2..4, single bunch in bucket 0, all profiles and complex impedances'}
-    chk.assumptions = ['structure obligations: fftwf_execute uninterpreted (whole input buffer)', 'Parseval for N > 4 is not decided (irrational twiddles); it is a property of the DFT pair, the code-level content (which bins, which factor, which cells) is decided for all listed N',
+    jobs += [(job_spectrum, c) for c in cfgs] + [(job_spectrum, tuple(c) + (True,)) for c in cfgs if not c[4]] + [(job_parseval, (n,)) for n in ((3, 4) if tier == 'quick' else (2, 3, 4))] + [(job_parseval, (n, 8)) for n in ((4, 5) if tier == 'quick' else (2, 3, 4, 5, 6, 7, 8))]
+    chk.bounds = {'configurations (n, N, spacing, buckets, cutoff)': cfgs, 'Parseval': 'N = 4 and N = 8 with FFTW\'s documented r2c/c2r written out exactly (N = 8: twiddles in Q(sqrt 1/2), the root pinned by its defining equation), n = 2..8, single bunch in bucket 0, all profiles and complex impedances'}
+    chk.assumptions = ['structure obligations: fftwf_execute uninterpreted (whole input buffer)', 'Parseval for N other than 4 and 8 is not decided (twiddles outside Q(sqrt 1/2)); it is a property of the DFT pair, the code-level content (which bins, which factor, which cells) is decided for all listed N',
                        'exp(): 0 < exp(t), and exp(t) <= 1 for t <= 0 (one fresh variable per call)', 'floats as reals; NaN/inf outside the claim']
     chk.stubs = ['fftwf_execute: uninterpreted / exact DFT at N=4', 'expf: fresh variable with monotonicity axioms', 'pow(x,2) = x*x']
     _r7 = replayer(bld); _r18 = c18.replayer(bld)
